@@ -75,7 +75,7 @@ int main (int argc, char **argv) {
 	if (argc < 4) return 2;
 	in = fopen (argv[1], "r"); if (!in) return 2;
 	vt_open (argv[2]); snprintf (name, sizeof name, "%s_intr", argv[3]);
-	p_libsys_init ();
+	p_libsys_init (); p_libsys_shutdown (); p_libsys_init ();      /* the library is used after a shutdown / re-initialisation cycle */
 	while (fgets (line, sizeof line, in)) {
 		double t0; a = 0;
 		if (sscanf (line, "%31s %ld", op, &a) < 1) continue;
